@@ -262,7 +262,12 @@ pub fn mangle(t: &mut Tape, rng: &mut SimRng, layout: &Layout, orig: &[u8], cx: 
                     } else {
                         let g = others[t.usize(others.len())];
                         let v = orig[g.off..g.off + g.len].to_vec();
+                        let w = orig[f.off..f.off + f.len].to_vec();
                         b[f.off..f.off + f.len].copy_from_slice(&v);
+                        if t.chance(1, 2) {
+                            // swap rather than copy (hiding <-> binding)
+                            b[g.off..g.off + g.len].copy_from_slice(&w);
+                        }
                         true
                     }
                 }
